@@ -1430,7 +1430,7 @@ func compileTableExpr(context *funcContext, reg int, ex *ast.TableExpr, ec *expc
 			}
 			c := (arraycount-1)/FieldsPerFlush + 1
 			b := num
-			if islast && isVarArgReturnExpr(field.Value) {
+			if lastvararg {
 				b = 0
 			}
 			line := field.Value
